@@ -329,7 +329,7 @@ func mutateTokens(t *rapid.T, toks []ref.JSONTok) ([]ref.JSONTok, string) {
 func init() {
 	register(&Property{
 		ID:   "C04",
-		Rule: "rapid draws a value tree and renders it with the harness' grammar-based RFC 8259 text generator (whitespace SP/HT/LF/CR anywhere allowed, every escape spelling incl. \\uXXXX in both hex cases, surrogate pairs, lone surrogates, raw multi-byte UTF-8 after escapes, number literals with sign/fraction/exponent and 64-bit boundary integers, out-of-range literals); 1 in 4 of the valid texts arrives through ParseReader in chunks (cuts after whitespace bytes, into tokens, at random); 1 in 4 of the others is read by Parser.Parse on an instance that handled 1..2 other texts first (complete, invalid, or written and abandoned midway); 1 in 4 cases breaks the token structure (drop/dup/replace/swap/insert a structural token, non-string key); oracle = encoding/json (Token+UseNumber) with the statement's number rule; non-trivial = text has an escape, a multi-byte rune, a container or a number literal longer than 2 bytes (mutations: the reference rejects the text and it is not a value stream); distinct by text hash",
+		Rule: "rapid draws a value tree and renders it with the harness' grammar-based RFC 8259 text generator (whitespace SP/HT/LF/CR anywhere allowed, every escape spelling incl. \\uXXXX in both hex cases, surrogate pairs, lone surrogates, raw multi-byte UTF-8 after escapes, number literals with sign/fraction/exponent and 64-bit boundary integers, out-of-range literals); 1 in 4 of the valid texts arrives through ParseReader in chunks (cuts after whitespace bytes, into tokens, at random); 1 in 4 of the others is read by Parser.Parse on an instance that handled 1..2 other texts first (complete, invalid, or written and abandoned midway); 1 in 4 cases breaks the token structure (drop/dup/replace/swap/insert a structural token, non-string key); deterministic part: the complete single-token edit neighbourhood of 13 fixed texts (every token dropped, duplicated, swapped with its successor, every structural token replaced by every other, every structural token and three value tokens inserted at every gap); oracle = encoding/json (Token+UseNumber) with the statement's number rule; non-trivial = text has an escape, a multi-byte rune, a container or a number literal longer than 2 bytes (mutations: the reference rejects the text and it is not a value stream); distinct by text hash",
 		New:  func() any { return &C04Case{} },
 		Draw: func(t *rapid.T) any {
 			v := gen.Value(t, gen.ValueCfg{IntRange: "json", ValidUTF8: true, Finite: true, Deep: true})
@@ -367,5 +367,112 @@ func init() {
 			return c
 		},
 		Check: checkC04,
+		Enum:  enumC04,
 	})
+}
+
+// c04Pieces splits one of the fixed enumeration texts into tokens and the
+// whitespace runs between them (the texts use no control characters).
+func c04Pieces(text string) (pieces []string, isTok []bool) {
+	i := 0
+	for i < len(text) {
+		c := text[i]
+		j := i + 1
+		switch {
+		case c == ' ' || c == '\t' || c == '\n' || c == '\r':
+			for j < len(text) && (text[j] == ' ' || text[j] == '\t' || text[j] == '\n' || text[j] == '\r') {
+				j++
+			}
+			pieces, isTok = append(pieces, text[i:j]), append(isTok, false)
+			i = j
+			continue
+		case strings.ContainsRune("{}[],:", rune(c)):
+		case c == '"':
+			for j < len(text) && text[j] != '"' {
+				if text[j] == '\\' {
+					j++
+				}
+				j++
+			}
+			j++
+		default:
+			for j < len(text) && !strings.ContainsRune("{}[],: \t\n\r\"", rune(text[j])) {
+				j++
+			}
+		}
+		pieces, isTok = append(pieces, text[i:j]), append(isTok, true)
+		i = j
+	}
+	return pieces, isTok
+}
+
+var c04EnumTexts = []string{
+	`{"a":1,"b":[true,null,{"c":"d"}],"e":{}}`,
+	`[1,[2,3],{"k":[]},"s"]`,
+	" { \"a\" : 1 , \"b\" : 2 } ",
+	`[[],{}]`,
+	`{"a":{"b":null},"c":2}`,
+	`[{"k":"v"}]`,
+	"[ 1 ,\n 2 ]",
+	`{"":[{"":{}}]}`,
+	`"s"`, `12`, `null`, `[]`, `{}`,
+}
+
+// enumC04: the complete single-token edit neighbourhood of a fixed set of texts —
+// every token dropped, duplicated, swapped with its successor, every structural
+// token replaced by every other one, and every structural token and three value
+// tokens inserted at every gap (in front of and behind existing whitespace). The
+// oracle is the one for generated mutations: a text whose bracket/comma/colon
+// structure is not that of a JSON text must be rejected.
+func enumC04(emit func(c any) bool) {
+	structural := []string{"{", "}", "[", "]", ",", ":"}
+	inserts := append(append([]string{}, structural...), "1", `"s"`, "null")
+	for _, text := range c04EnumTexts {
+		if !emit(&C04Case{Text: []byte(text)}) {
+			return
+		}
+		pieces, isTok := c04Pieces(text)
+		join := func(ps []string) []byte { return []byte(strings.Join(ps, "")) }
+		with := func(i int, repl ...string) []string {
+			out := append([]string{}, pieces[:i]...)
+			out = append(out, repl...)
+			return append(out, pieces[i+1:]...)
+		}
+		for i, p := range pieces {
+			if !isTok[i] {
+				continue
+			}
+			edits := [][]string{with(i), with(i, p, p)}
+			for _, r := range structural {
+				if r != p && len(p) == 1 && strings.Contains("{}[],:", p) {
+					edits = append(edits, with(i, r))
+				}
+			}
+			// swap with the next token (whitespace in between stays)
+			for k := i + 1; k < len(pieces); k++ {
+				if isTok[k] {
+					sw := append([]string{}, pieces...)
+					sw[i], sw[k] = sw[k], sw[i]
+					edits = append(edits, sw)
+					break
+				}
+			}
+			for _, e := range edits {
+				if !emit(&C04Case{Text: join(e), Mutated: true, Note: "enum single-token edit"}) {
+					return
+				}
+			}
+		}
+		for gap := 0; gap <= len(pieces); gap++ {
+			for _, ins := range inserts {
+				out := append([]string{}, pieces[:gap]...)
+				out = append(out, ins)
+				out = append(out, pieces[gap:]...)
+				// (a value token glued to a neighbouring word would change that token, not the structure)
+				if !emit(&C04Case{Text: join(out), Mutated: true, Note: "enum single-token insert"}) {
+					return
+				}
+			}
+		}
+	}
 }
